@@ -118,8 +118,9 @@ func VerifC02_rotate() {
 	}
 }
 
-// VerifC02_update_cyclelist: governance replaces the cycle list; afterwards O1 must hold again, otherwise the next
-// EndBlocker indexes past the list. Known finding C02-F3: the sequencer is not reset.
+// VerifC02_update_cyclelist: governance replaces the cycle list; afterwards O1 must hold again (list non-empty,
+// sequencer inside it), otherwise the next EndBlocker indexes past the list. (C02-F3, repaired: the sequencer was not
+// reset and an empty list was accepted.)
 func VerifC02_update_cyclelist() {
 	ctx, k := vOracleKeeper(&vRepStub{}, newVBank(false), c07Registry{window: 10})
 	n := 1 + ndLen("n", 2)
@@ -142,18 +143,27 @@ func VerifC02_update_cyclelist() {
 		newList[i] = c07QueryData("SpotPrice", []byte(c02Names[(i+1)%3]))
 	}
 	_, err := NewMsgServerImpl(k).UpdateCyclelist(ctx, &types.MsgUpdateCyclelist{Authority: k.GetAuthority(), Cyclelist: newList})
-	ndAssert(err == nil, "governance-update-accepted")
+	if m > 0 {
+		ndAssert(err == nil, "governance-update-accepted")
+	}
 	if err != nil {
+		if m == 0 {
+			// refusing an empty list is one way of keeping the EndBlocker safe
+			ndReach("empty-list-refused")
+			list, lerr := k.GetCyclelist(ctx)
+			after, _ := k.CyclelistSequencer.Peek(ctx)
+			ndAssert(lerr == nil && len(list) == n && after == idx, "refused-update-changes-nothing")
+		}
 		return
 	}
 	ndReach("updated")
 	list, lerr := k.GetCyclelist(ctx)
 	ndAssert(lerr == nil && len(list) == m, "cycle-list-replaced")
 	after, _ := k.CyclelistSequencer.Peek(ctx)
-	shrunk := uint64(m) <= idx
-	ndAssertK(after < uint64(m), "sequencer-inside-the-new-cycle-list", "C02-F3", shrunk)
+	if m > 0 {
+		ndAssert(after < uint64(m), "sequencer-inside-the-new-cycle-list")
+	}
 	// the next block's EndBlocker
-	ndPanicRegion("C02-F3", "index out of range", shrunk)
 	rerr := k.RotateQueries(ctx.WithBlockHeight(50))
 	ndAssert(rerr == nil, "next-rotation-returns-nil")
 }
